@@ -102,6 +102,10 @@ pub fn catalogue() -> Vec<Placement> {
         t("nontail/other-function", "fn v_f(v_n: int, v_a: int)->int{ fn v_h(v_m: int, v_b: int)->int{ v_f(v_m, v_b) } if(v_n == 0, v_a, v_h(v_n - 1, v_a + 1)) }", false, 2),
         Placement { name: "nontail/if-condition", decl: "fn v_f(v_n: int)->bool{ if(v_n == 0, true, if(v_f(v_n - 1), true, false)) }", main_ty: "bool", main_body: "v_f({N})", tail: false, value: vtrue, frames_per_level: 1, calls_per_level: 1, extra_calls: 0, extra_height: 0, error_arg: false },
         Placement { name: "nontail/or-first-arg", decl: "fn v_f(v_n: int)->bool{ v_n == 0 || (v_f(v_n - 1) || false) }", main_ty: "bool", main_body: "v_f({N})", tail: false, value: vtrue, frames_per_level: 1, calls_per_level: 1, extra_calls: 0, extra_height: 0, error_arg: false },
+        // closures of the frame (a lambda, an inner function) capture the parameters of *this* iteration
+        Placement { name: "tail/lambda-captures-parameter", decl: "fn v_f(v_n: int, v_a: int)->int{ let v_g = (v_x: int)->{ v_x + v_n }; let v_y = v_g(0); if(v_n == 0, v_a, v_f(v_n - 1, v_a + v_y - v_n + 1)) }", main_ty: ii, main_body: "v_f({N}, 0)", tail: true, value: vn, frames_per_level: 1, calls_per_level: 2, extra_calls: 0, extra_height: 1, error_arg: false },
+        Placement { name: "tail/inner-fn-captures-parameter", decl: "fn v_f(v_n: int, v_a: int)->int{ fn v_g(v_x: int)->int{ v_x + v_n } let v_y = v_g(0); if(v_n == 0, v_a, v_f(v_n - 1, v_a + v_y - v_n + 1)) }", main_ty: ii, main_body: "v_f({N}, 0)", tail: true, value: vn, frames_per_level: 1, calls_per_level: 2, extra_calls: 0, extra_height: 1, error_arg: false },
+        Placement { name: "tail/lambda-captures-local", decl: "fn v_f(v_n: int, v_a: int)->int{ let v_m = v_n * 2; let v_g = ()->{ v_m }; let v_y = v_g(); if(v_n == 0, v_a, v_f(v_n - 1, v_a + v_y - v_n * 2 + 1)) }", main_ty: ii, main_body: "v_f({N}, 0)", tail: true, value: vn, frames_per_level: 1, calls_per_level: 2, extra_calls: 0, extra_height: 1, error_arg: false },
         // the self-call is the right operand of a short-circuit / lazy operator that is itself NOT in tail position
         Placement { name: "nontail/or-right-under-not", decl: "fn v_f(v_n: int)->bool{ !(v_n == 0 || !v_f(v_n - 1)) }", main_ty: "bool", main_body: "v_f({N})", tail: false, value: vfalse, frames_per_level: 1, calls_per_level: 1, extra_calls: 0, extra_height: 0, error_arg: false },
         Placement { name: "nontail/and-right-under-not", decl: "fn v_f(v_n: int)->bool{ !(v_n != 0 && !v_f(v_n - 1)) }", main_ty: "bool", main_body: "v_f({N})", tail: false, value: vtrue, frames_per_level: 1, calls_per_level: 1, extra_calls: 0, extra_height: 0, error_arg: false },
@@ -176,9 +180,17 @@ fn height(p: &Placement, n: u64) -> u64 {
     }
 }
 
+/// tail placements whose body calls a closure of the frame once per iteration (encoded as
+/// `calls_per_level == 2` on a tail placement): n + 1 frames, n + 1 inner calls, each one frame deep
+fn inner_call_each_iteration(p: &Placement) -> bool {
+    p.tail && p.calls_per_level == 2
+}
+
 fn calls(p: &Placement, n: u64) -> u64 {
     if p.error_arg {
         2
+    } else if inner_call_each_iteration(p) {
+        2 + p.extra_calls + n + 1
     } else if p.tail {
         2 + p.extra_calls
     } else {
@@ -298,7 +310,8 @@ impl Job for PlacementJob {
         // only gains depth through `extra_height` at the very end, after all iterations
         if depth_trips && rec_trips && p.tail {
             expect = vec![Outcome::Violation("MaximumRecursion".into())];
-            if height(p, n) - p.extra_height >= c.limits.depth.unwrap() as u64 {
+            if height(p, n) - p.extra_height >= c.limits.depth.unwrap() as u64 || inner_call_each_iteration(p) {
+                // (an inner call in every iteration reaches its depth in iteration 0, before the first tail call)
                 expect = vec![Outcome::Violation("MaximumStackDepth".into())];
             }
         }
